@@ -21,10 +21,18 @@ CLAIMED = {
    text="Seeded search over MatrixGraph histories: Directed/Undirected x Option/NotZero null element x four index widths x seeded good/four-bucket/constant hasher x initial capacities around every 4/8/16/32/64 step, with runs of up to 70 nodes (and u8 runs that fill the id space) so the flattened matrix is relocated many times while edges sit on its border; node removal, id reuse and re-insertion interleave with edge add/update/remove through every entry point (add_edge, update_edge, try_update_edge, add_or_update_edge, Build routes, remove_edge, try_remove_edge, extend_with_edges, from_edges, clear). After every step node_count, edge_count, node ids and weights, edge_references, has_edge/get_edge_weight/edge_weight for all (or sampled) pairs, neighbors/edges and their directed variants are compared with a map-based simple-graph model; id stability and 'a reused id starts with no incident edges' follow from the comparison. Faults: documented panics (remove_edge of a missing edge, add_edge of an existing one, remove_node of an absent node, zero weight under NotZero, node limit) must leave the relation intact. Exploration.",
    note="Edge operations are only issued between existing nodes and extend_with_edges only on vacancy-free graphs (the property's stated domain: the suite pins that edges to non-existent ids are tolerated). After the documented add_edge-on-existing panic the stored weight may be the old or the new one.",
    technique=HIST),
+ "C05": dict(engine="history:csr+list", design="DESIGN.md §2 C05",
+   text="Seeded search over Csr histories (directed/undirected, four index widths; add_node, add_edge/try_add_edge in arbitrary order, clear_edges, node-weight writes, clone) including a 'wide' swarm class that builds rows of 25-45 neighbours so both sides of the 32-entry linear/binary cutoff and the transition across it are executed, compared after every step with a BTreeMap row model (rows strictly ascending, slices, out_degree, edges, edge_references, contains_edge for all or sampled pairs, both rows of an undirected edge, add_edge returning false and changing nothing for an existing edge); from_sorted_edges is fed sorted, swapped, duplicated and reversed lists and must succeed exactly on strictly sorted duplicate-free input and then equal the edge-by-edge build. adj::List histories (add_node variants, add_edge, Build::update_edge, clear, weight writes through every edge index ever returned) are compared with a Vec-of-rows model in insertion order, and every returned edge index must keep resolving to its edge. Faults: out-of-range endpoints (Err / documented panic, structure unchanged). Exploration.",
+   note="Node counts are capped (120 / 100) so the index type never wraps in add_node (outside the property's domain); Build::update_edge on List is only issued in range (its documentation only says it might panic otherwise).",
+   technique=HIST),
  "C06": dict(engine="step-invariant:visit", design="DESIGN.md §2 C06",
    text="Step invariant evaluated on the states reached by the seeded mutation histories of the structure engines (so states with vacant node and edge indices, swap-renumbered graphs, parallel edges and self-loops are the norm): through the visit traits only, node_identifiers/node_references/node_count/to_index/from_index/node_bound, edge_references/edge_count, neighbors/edges/neighbors_directed/edges_directed per node and is_adjacent for every ordered pair of live nodes must describe one graph; the same battery is then run on &G, Reversed, UndirectedAdaptor, NodeFiltered, EdgeFiltered, Frozen and 11 depth-2 stackings against the base view transformed the obvious way. The oracle is self-consistency of the views (ground set = the structure's own node_identifiers + edge_references), independent of any reference model. Exploration.",
    note="UndirectedAdaptor is applied to directed bases only (over an undirected base it doubles every edge by construction) and the multiplicity with which it lists a self-loop (1 or 2) is left open; a run whose structure disagrees with the generation-driving model is discarded and counted, not reported here.",
    technique="deterministic simulation: invariant checked after every step of seeded mutation histories (cross-view consistency)"),
+ "C14": dict(engine="history:acyclic", design="DESIGN.md §2 C14",
+   text="Seeded search over Acyclic<DiGraph> and Acyclic<StableDiGraph> histories (four index widths): add_node, try_add_edge, try_update_edge, Build::add_edge/update_edge, remove_edge, remove_node (present, absent, vacant, repeated; biased to non-last nodes of a DiGraph so another node is renumbered), is_valid_edge probes, try_from_graph / TryFrom on seeded cyclic and acyclic graphs with holes. A reachability DFS on the reference model predicts accept / SelfLoop / Cycle exactly; after every step the inner graph must equal the model (same full observation as C01/C02), nodes_iter must list exactly the live nodes, get_position/at_position must be inverse, range(..) must equal nodes_iter, nodes_iter must be sorted by position and every edge must go from an earlier to a later position; a rejected insertion or a removal of an absent node must leave graph and order sequence identical; is_valid_edge must agree with the following insertion. Exploration.",
+   note="Edge insertions are only issued between existing nodes (the documentation says they panic otherwise); removal of an absent node may return None or panic, the state must be intact either way.",
+   technique=HIST),
  "C19": dict(engine="history:unionfind", design="DESIGN.md §2 C19",
    text="Seeded search over UnionFind call histories (all four index widths, u8 filled to its 256-element capacity) run in lock-step against a label-array partition model; after every call the full equivalence relation, the stability of class representatives (find / find_mut / try_* / into_labeling agree and compression changes nothing) and len are compared; out-of-range arguments and absurd try_reserve sizes are injected as faults and must give exactly the documented Err/panic with the partition unchanged. Exploration, not proof: a clean batch means no sampled history disagreed.",
    note="Trusts the label-array model (about 20 lines) and Vec's try_reserve returning Err for a request above isize::MAX. new_set beyond the index type's capacity is outside the property's domain and is not issued.",
